@@ -130,3 +130,64 @@ Proof.
   { apply py_max_perm; [|exact N]. unfold mer_cands. apply Permutation_filter', Permutation_filter'. exact P. }
   rewrite A3, A7, B3, B7, E. auto.
 Qed.
+
+(* ------------------------------------------------------------------------------------------------- *)
+(* "how many kinds of amount, date, source or field constraints it USES": identifiers of the expression, outside quoted
+   pattern text.  The code counts keyword SUBSTRINGS of the whole text instead; the two differ (refutation below). *)
+Definition is_ident_char (c : ascii) : bool :=
+  let n := N_of_ascii c in (is_alpha c || (N.leb 48 n && N.leb n 57) || N.eqb n 95)%bool.
+
+(* drop the text between pairs of quote characters q (the quote characters stay) *)
+Fixpoint bare_q (q : ascii) (s : string) (inq : bool) : string :=
+  match s with
+  | EmptyString => EmptyString
+  | String c r => if Ascii.eqb c q then String c (bare_q q r (negb inq))
+                  else if inq then bare_q q r inq else String c (bare_q q r inq)
+  end.
+Definition bare (s : string) : string := bare_q "'"%char (bare_q """"%char s false) false.
+
+Definition next_is_ident (s : string) : bool := match s with String c _ => is_ident_char c | EmptyString => false end.
+
+(* kw occurs as a whole identifier ("field." : as the prefix of an attribute access) *)
+Fixpoint has_ident (kw s : string) (prev_ident : bool) : bool :=
+  match s with
+  | EmptyString => false
+  | String c r =>
+      ((negb prev_ident && sprefix kw s &&
+        (last_is "."%char kw || negb (next_is_ident (sdrop (String.length kw) s))))
+       || has_ident kw r (is_ident_char c))%bool
+  end.
+
+Definition kinds_used (m : string) : Z :=
+  Z.of_nat (length (filter (fun kw => has_ident kw (bare (lower m)) false) constraint_keywords)).
+
+Definition constraint_kinds_are_kinds_used_statement : Prop := forall m, constraint_kinds m = kinds_used m.
+
+Lemma constraint_kinds_are_kinds_used_refuted : ~ constraint_kinds_are_kinds_used_statement.
+Proof. intros H. specialize (H "contains(""HOLIDAY"")"). vm_compute in H. discriminate. Qed.
+
+(* what does hold: the third component is exactly the number of keywords that are substrings of the lower-cased text *)
+Lemma constraint_kinds_partial : forall r,
+  snd (fst (spec_of r)) = Z.of_nat (length (filter (fun kw => contains (lower (r_match r)) kw) constraint_keywords)).
+Proof. intros r. rewrite spec_of_components. reflexivity. Qed.
+
+Lemma lex_order_all :
+  (forall r, spec_of r = (r_priority r, pattern_count (r_match r), constraint_kinds (r_match r), pattern_length (r_match r))) /\
+  (forall p1 n1 k1 l1 p2 n2 k2 l2,
+     spec_lt (p1, n1, k1, l1) (p2, n2, k2, l2) <->
+     (p1 < p2 \/ (p1 = p2 /\ (n1 < n2 \/ (n1 = n2 /\ (k1 < k2 \/ (k1 = k2 /\ l1 < l2))))))%Z) /\
+  (forall a, ~ spec_lt a a) /\
+  (forall a b c, spec_lt a b -> spec_lt b c -> spec_lt a c) /\
+  (forall a b, spec_lt a b \/ a = b \/ spec_lt b a) /\
+  (forall a b, spec_le a b <-> (spec_lt a b \/ a = b)).
+Proof.
+  split; [exact spec_of_components|]. split; [exact spec_ltb_lex|].
+  split; [intros a H; unfold spec_lt in H; rewrite spec_ltb_irrefl in H; discriminate|].
+  split; [exact spec_ltb_trans|]. split; [exact spec_trichotomy|exact spec_le_iff].
+Qed.
+
+Lemma first_max_unique_winner : forall l w1 w2, first_max l w1 -> first_max l w2 -> w1 = w2.
+Proof.
+  intros l w1 w2 (b1 & a1 & E1 & B1 & A1) (b2 & a2 & E2 & B2 & A2).
+  destruct (first_max_unique b1 l w1 w2 a1 b2 a2 E1 B1 A1 E2 B2 A2) as (_ & E & _). exact E.
+Qed.
